@@ -48,7 +48,7 @@ impl Prop for C12 {
                 let target = *g.pick(&[255usize, 256, 257, 511, 512, 513, 768, 1024]) + g.usize_in(0, 2) - 1;
                 let rows = target.saturating_sub(ncols + 3);
                 let cols: Vec<crate::vals::ColSpec> = (0..ncols).map(|i| crate::vals::ColSpec::simple(&format!("c{}", i), T_LONG, 0)).collect();
-                let rows: Vec<RowProg> = (0..rows).map(|r| RowProg { cells: (0..ncols).map(|c| crate::vals::Val::plain(crate::vals::Base::I32((r + c) as i32))).collect(), form: RowForm::WriteRow }).collect();
+                let rows: Vec<RowProg> = (0..rows).map(|r| RowProg { cells: (0..ncols).map(|c| crate::vals::Val::plain(crate::vals::Base::I32((r + c) as i32))).collect(), form: RowForm::WriteRow, offers: vec![] }).collect();
                 conv.actions[ai] = Action::Result(Program { steps: vec![Step::Set { cols, rows, end: SetEnd::Finish }] });
             }
         }
@@ -91,7 +91,7 @@ impl Prop for C12 {
         };
         for (i, &len) in lens.iter().enumerate() {
             for lockstep in [true, false] {
-                let big_row = RowProg { cells: vec![Val::plain(Base::BigBytes { seed: i as u32, len: len - 5 })], form: RowForm::WriteRow };
+                let big_row = RowProg { cells: vec![Val::plain(Base::BigBytes { seed: i as u32, len: len - 5 })], form: RowForm::WriteRow, offers: vec![] };
                 let prog = Program { steps: vec![Step::Set { cols: vec![ColSpec::simple("c", T_LONG_BLOB, 0)], rows: vec![big_row], end: SetEnd::Finish }] };
                 let mut conv = Conversation::new(
                     vec![Cmd::Query { text: Blob::Text { seed: 9, len: len - 1 } }, Cmd::Ping, Cmd::Query { text: Blob::text("small") }, Cmd::Ping],
